@@ -73,3 +73,9 @@ reg("C05", "runtime monitor: exhaustive walk of RandomGen's random-draw tree und
 reg("C23", "runtime monitor: differential comparison of a weighted design with its copy-expanded twin (exhausted solution multisets mapped back)",
     "Each weighted basic level is replaced by separately named copies (tables rewritten); the twin's exhausted sequences, mapped back, with copies of crossed levels collapsed and copies of uncrossed levels kept distinct, must equal the weighted design's multiset for IterateSATGen and RandomGen; trial counts and constructor outcomes must agree.",
     "copy semantics as documented for Level; constraints never name a weighted level directly; <= 900 twin sequences")
+reg("C18", "runtime monitor: histories of block constructions from one shared object pool compared with fresh builds (solution sets, trial counts, mismatch verdicts)",
+    "2-4 blocks are built in random order from ONE pool of factor and constraint objects, interleaved with synthesis calls; each block's trial count, exhausted IterateSATGen and RandomGen sets and mismatch verdicts on fixed candidates must equal those of the same block built alone from fresh objects.",
+    "sets by level names; <= 300 sequences; the listed known finding absorbs only blocks whose shared constraint object was first used in an earlier block")
+reg("C29", "runtime monitor: SMGen runs in a guarded child process, refusal text or returned sequences judged by the reference model",
+    "Generated designs (weights, MinimumTrials, every constraint type, Repeat) are given to SMGen twice per process (reset_state), with the watchdog timer shortened in a third of the cases; the outcome must be a documented refusal or sequences that R judges valid. Searches that hit the guard are inconclusive.",
+    _R + "; an unrelated crash returns no sequence and is recorded, not reported")
